@@ -953,7 +953,7 @@ Qed.
 Theorem single_descriptor_loop d out rest d' :
   enc_descriptors_with_length [d] = Ok out -> items_bytes_ok out ->
   0 <= Descriptor_Tag d < 256 -> 0 < desc_size d < 256 ->
-  (forall pre body rest', zlen pre = 4 -> (exists bi, enc_descriptor_body d = Ok bi /\ body = bytes_of_items bi) ->
+  (forall pre body rest', zlen pre = 4 -> (exists bi, enc_descriptor_body d = Ok bi /\ items_bytes_ok bi /\ body = bytes_of_items bi) ->
      exists i1, parse_descriptor_body (Descriptor_Tag d) (desc_size d) (4 + desc_size d) (mk_iter (pre ++ body ++ rest') 4) = Ok (d', i1)) ->
   parse_descriptors (new_iter (bytes_of_items out ++ rest)) =
     Ok ([d'], mk_iter (bytes_of_items out ++ rest) (4 + desc_size d)) /\
@@ -966,11 +966,12 @@ Proof.
   inversion HF as [|? body ? bs' [Hb1 Hb2] HF' E1 E2]; subst. inversion HF'; subst. clear HF HF'.
   cbn [loop_bytes] in Eb. rewrite app_nil_r in Eb. unfold entry_bytes in Eb.
   (* the body is what the body writer emitted *)
-  assert (Hbi : exists bi, enc_descriptor_body d = Ok bi /\ body = bytes_of_items bi).
+  assert (Hbi : exists bi, enc_descriptor_body d = Ok bi /\ items_bytes_ok bi /\ body = bytes_of_items bi).
   { unfold enc_descriptors_with_length in H. cbn [enc_descriptors] in H. unfold enc_descriptor in H.
     destruct (calc_descriptor_length d =? 0) eqn:Ez; [lia|].
     destruct (enc_descriptor_body d) as [bi| |] eqn:Ebi; cbn [res_map res_bind] in H; try discriminate.
     exists bi. split; [reflexivity|].
+    cut (items_bytes_ok bi /\ body = bytes_of_items bi); [tauto|].
     assert (Eo : out = [WBits 4 255; WBits 12 (calc_descriptors_length [d])] ++ ([wu8 (Descriptor_Tag d); wu8 (calc_descriptor_length d)] ++ bi) ++ [])
       by (inversion H; reflexivity).
     rewrite app_nil_r in Eo. subst out.
@@ -982,7 +983,7 @@ Proof.
       by (apply bytes_of_items_zlen; [assumption|bl; reflexivity]).
     assert (El : length hdr = length (bytes_of_items [WBits 4 255; WBits 12 (calc_descriptors_length [d])])) by (unfold zlen in *; lia).
     apply (app_eq_len _ _ _ _ (eq_sym El)) in Eb.
-    destruct Eb as [_ Eb]. cbn [app] in Eb. inversion Eb. reflexivity. }
+    destruct Eb as [_ Eb]. cbn [app] in Eb. inversion Eb. split; [assumption|reflexivity]. }
   remember (bytes_of_items out) as bytes eqn:Ebytes.
   assert (Hh0 : exists h0 h1, hdr = [h0; h1]).
   { destruct hdr as [|h0 [|h1 [|h2 hdr]]]; unfold zlen in Hh; cbn [length] in Hh; try lia. eauto. }
@@ -1012,4 +1013,196 @@ Proof.
   eapply tlv_parse_body with (i' := i1); try lia.
   - rewrite Et, El, Ebuf, Ea, Hcd. cbn [app] in Ei1. rewrite Hcd in Ei1. exact Ei1.
   - apply tlv_parse_done. lia.
+Qed.
+
+(* ---- per-tag round trips (body level, then lifted through single_descriptor_loop) ---- *)
+
+Definition byte_range (x : Z) : Prop := 0 <= x < 256.
+
+(* stream identifier (EN 300 468 6.2.39) *)
+Theorem rt_stream_identifier d v out rest :
+  Descriptor_Tag d = 82 -> Descriptor_StreamIdentifier d = Some v ->
+  byte_range (DescriptorStreamIdentifier_ComponentTag v) ->
+  enc_descriptors_with_length [d] = Ok out -> items_bytes_ok out ->
+  parse_descriptors (new_iter (bytes_of_items out ++ rest)) =
+    Ok ([set_StreamIdentifier (desc_hdr 82 1) v], mk_iter (bytes_of_items out ++ rest) 5).
+Proof.
+  intros Ht Hv Hr H Hok.
+  assert (Hs : desc_size d = 1) by (unfold desc_size; rewrite Ht, Hv; reflexivity).
+  destruct (single_descriptor_loop d out rest (set_StreamIdentifier (desc_hdr 82 1) v) H Hok) as [E _]; [rewrite Ht; lia|lia| |rewrite Hs in E; exact E].
+  intros pre body rest' Hpre (bi & Ebi & Hbok & ->). rewrite Ht, Hs.
+  assert (bi = enc_stream_identifier v) by (unfold enc_descriptor_body in Ebi; rewrite Ht, Hv in Ebi; inversion Ebi; reflexivity). subst bi.
+  change (parse_descriptor_body 82 1 (4 + 1)) with (v0 <- new_descriptor_stream_identifier ;; iret (set_StreamIdentifier (desc_hdr 82 1) v0)).
+  unfold enc_stream_identifier. rewrite bytes_of_items_cons_u8, bytes_of_items_nil by iok.
+  rewrite Z.mod_small by exact Hr. rewrite <- Hpre.
+  unfold new_descriptor_stream_identifier, ibind. cbn [app]. rewrite next_byte_step. unfold iret. destruct v. eexists. reflexivity.
+Qed.
+
+(* data stream alignment (ISO/IEC 13818-1 2.6.10) *)
+Theorem rt_data_stream_alignment d v out rest :
+  Descriptor_Tag d = 6 -> Descriptor_DataStreamAlignment d = Some v ->
+  byte_range (DescriptorDataStreamAlignment_Type v) ->
+  enc_descriptors_with_length [d] = Ok out -> items_bytes_ok out ->
+  parse_descriptors (new_iter (bytes_of_items out ++ rest)) =
+    Ok ([set_DataStreamAlignment (desc_hdr 6 1) v], mk_iter (bytes_of_items out ++ rest) 5).
+Proof.
+  intros Ht Hv Hr H Hok.
+  assert (Hs : desc_size d = 1) by (unfold desc_size; rewrite Ht, Hv; reflexivity).
+  destruct (single_descriptor_loop d out rest (set_DataStreamAlignment (desc_hdr 6 1) v) H Hok) as [E _]; [rewrite Ht; lia|lia| |rewrite Hs in E; exact E].
+  intros pre body rest' Hpre (bi & Ebi & Hbok & ->). rewrite Ht, Hs.
+  assert (bi = enc_data_stream_alignment v) by (unfold enc_descriptor_body in Ebi; rewrite Ht, Hv in Ebi; inversion Ebi; reflexivity). subst bi.
+  change (parse_descriptor_body 6 1 (4 + 1)) with (v0 <- new_descriptor_data_stream_alignment ;; iret (set_DataStreamAlignment (desc_hdr 6 1) v0)).
+  unfold enc_data_stream_alignment. rewrite bytes_of_items_cons_u8, bytes_of_items_nil by iok.
+  rewrite Z.mod_small by exact Hr. rewrite <- Hpre.
+  unfold new_descriptor_data_stream_alignment, ibind. cbn [app]. rewrite next_byte_step. unfold iret. destruct v. eexists. reflexivity.
+Qed.
+
+Lemma ok_single_bytes a : items_bytes_ok [WBytes a] -> bytes_ok a.
+Proof. intros H. inversion H; assumption. Qed.
+
+(* user-defined tags 0x80..0xFE: the bytes as they are *)
+Theorem rt_user_defined d out rest :
+  128 <= Descriptor_Tag d <= 254 -> 0 < zlen (Descriptor_UserDefined d) < 256 ->
+  enc_descriptors_with_length [d] = Ok out -> items_bytes_ok out ->
+  parse_descriptors (new_iter (bytes_of_items out ++ rest)) =
+    Ok ([set_UserDefined (desc_hdr (Descriptor_Tag d) (zlen (Descriptor_UserDefined d))) (Descriptor_UserDefined d)],
+        mk_iter (bytes_of_items out ++ rest) (4 + zlen (Descriptor_UserDefined d))).
+Proof.
+  intros Ht Hl H Hok.
+  assert (Hu : is_user_defined (Descriptor_Tag d) = true) by (unfold is_user_defined; lia).
+  assert (Hs : desc_size d = zlen (Descriptor_UserDefined d)) by (unfold desc_size; rewrite <- is_user_defined_spec, Hu; reflexivity).
+  destruct (single_descriptor_loop d out rest
+    (set_UserDefined (desc_hdr (Descriptor_Tag d) (zlen (Descriptor_UserDefined d))) (Descriptor_UserDefined d)) H Hok) as [E _];
+    [lia|lia| |rewrite Hs in E; exact E].
+  intros pre body rest' Hpre (bi & Ebi & Hbok & ->). rewrite Hs.
+  assert (bi = [WBytes (Descriptor_UserDefined d)]) by (unfold enc_descriptor_body in Ebi; rewrite Hu in Ebi; inversion Ebi; reflexivity). subst bi.
+  unfold parse_descriptor_body. rewrite Hu.
+  rewrite bytes_of_items_cons_bytes, bytes_of_items_nil, app_nil_r by (try apply ok_single_bytes; iok).
+  rewrite <- Hpre. unfold ibind. rewrite next_bytes_step by reflexivity. unfold iret. eexists. reflexivity.
+Qed.
+
+(* network name (EN 300 468 6.2.27) *)
+Theorem rt_network_name d v out rest :
+  Descriptor_Tag d = 64 -> Descriptor_NetworkName d = Some v -> 0 < zlen (DescriptorNetworkName_Name v) < 256 ->
+  enc_descriptors_with_length [d] = Ok out -> items_bytes_ok out ->
+  parse_descriptors (new_iter (bytes_of_items out ++ rest)) =
+    Ok ([set_NetworkName (desc_hdr 64 (zlen (DescriptorNetworkName_Name v))) v],
+        mk_iter (bytes_of_items out ++ rest) (4 + zlen (DescriptorNetworkName_Name v))).
+Proof.
+  intros Ht Hv Hl H Hok.
+  assert (Hs : desc_size d = zlen (DescriptorNetworkName_Name v)) by (unfold desc_size; rewrite Ht, Hv; reflexivity).
+  destruct (single_descriptor_loop d out rest (set_NetworkName (desc_hdr 64 (zlen (DescriptorNetworkName_Name v))) v) H Hok) as [E _];
+    [rewrite Ht; lia|lia| |rewrite Hs in E; exact E].
+  intros pre body rest' Hpre (bi & Ebi & Hbok & ->). rewrite Ht, Hs.
+  assert (bi = enc_network_name v) by (unfold enc_descriptor_body in Ebi; rewrite Ht, Hv in Ebi; inversion Ebi; reflexivity). subst bi.
+  set (n := zlen (DescriptorNetworkName_Name v)) in *.
+  change (parse_descriptor_body 64 n (4 + n)) with (v0 <- new_descriptor_network_name (4 + n) ;; iret (set_NetworkName (desc_hdr 64 n) v0)).
+  unfold enc_network_name in *. rewrite bytes_of_items_cons_bytes, bytes_of_items_nil, app_nil_r by (try apply ok_single_bytes; iok).
+  rewrite <- Hpre. unfold new_descriptor_network_name, bytes_to, ibind. rewrite ioffset_step.
+  replace (zlen pre + n - zlen pre) with n by lia. rewrite next_bytes_step by reflexivity. unfold iret. destruct v. eexists. reflexivity.
+Qed.
+
+(* unknown tags: everything below 0x80 (and 0xFF) that is not one of the 23 typed tags *)
+Definition typed_tags : list Z := [106; 40; 80; 84; 6; 122; 78; 127; 10; 88; 14; 64; 85; 15; 95; 5; 72; 77; 82; 89; 86; 69; 70].
+
+Ltac not_typed Hn :=
+  repeat match goal with
+  | |- context [if ?t =? ?n then _ else _] =>
+      let E := fresh "E" in destruct (t =? n) eqn:E;
+      [exfalso; apply Hn; apply Z.eqb_eq in E; rewrite E; unfold typed_tags; cbn [In]; tauto|]
+  | H : context [if ?t =? ?n then _ else _] |- _ =>
+      let E := fresh "E" in destruct (t =? n) eqn:E;
+      [exfalso; apply Hn; apply Z.eqb_eq in E; rewrite E; unfold typed_tags; cbn [In]; tauto|]
+  end.
+
+Theorem rt_unknown d v out rest :
+  0 <= Descriptor_Tag d < 256 -> is_user_defined (Descriptor_Tag d) = false -> ~ In (Descriptor_Tag d) typed_tags ->
+  Descriptor_Unknown d = Some v -> DescriptorUnknown_Tag v = Descriptor_Tag d -> 0 < zlen (DescriptorUnknown_Content v) < 256 ->
+  enc_descriptors_with_length [d] = Ok out -> items_bytes_ok out ->
+  parse_descriptors (new_iter (bytes_of_items out ++ rest)) =
+    Ok ([set_Unknown (desc_hdr (Descriptor_Tag d) (zlen (DescriptorUnknown_Content v))) v],
+        mk_iter (bytes_of_items out ++ rest) (4 + zlen (DescriptorUnknown_Content v))).
+Proof.
+  intros Hr Hu Hn Hv Htag Hl H Hok.
+  assert (Hs : desc_size d = zlen (DescriptorUnknown_Content v)).
+  { unfold desc_size. rewrite <- is_user_defined_spec, Hu. not_typed Hn. rewrite Hv. reflexivity. }
+  destruct (single_descriptor_loop d out rest (set_Unknown (desc_hdr (Descriptor_Tag d) (zlen (DescriptorUnknown_Content v))) v) H Hok) as [E _];
+    [lia|lia| |rewrite Hs in E; exact E].
+  intros pre body rest' Hpre (bi & Ebi & Hbok & ->). rewrite Hs.
+  assert (bi = enc_unknown v).
+  { unfold enc_descriptor_body in Ebi. rewrite Hu in Ebi. unfold_tags. not_typed Hn. rewrite Hv in Ebi. inversion Ebi; reflexivity. }
+  subst bi. set (n := zlen (DescriptorUnknown_Content v)) in *.
+  unfold parse_descriptor_body. rewrite Hu. unfold_tags. not_typed Hn.
+  unfold enc_unknown in *. rewrite bytes_of_items_cons_bytes, bytes_of_items_nil, app_nil_r by (try apply ok_single_bytes; iok).
+  rewrite <- Hpre. unfold new_descriptor_unknown, ibind. rewrite next_bytes_step by reflexivity. unfold iret.
+  destruct v as [c t]. cbn [DescriptorUnknown_Tag DescriptorUnknown_Content] in *. subst t. eexists. reflexivity.
+Qed.
+
+(* 32-bit word read back *)
+Lemma u32_group x : 0 <= x < 2 ^ 32 ->
+  zlen (bytes_of_items [wu32 x]) = 4 /\ bitsf (bytes_of_items [wu32 x]) 0 32 = x.
+Proof.
+  intros Hx. destruct (bytes_of_group [wu32 x] 4) as [Hl Hb]; [iok|unfold wu32; bl; reflexivity|].
+  split; [exact Hl|]. unfold bitsf. rewrite Hb. unfold wu32, items_bits. cbn [flat_map item_bits].
+  apply field_here. exact Hx.
+Qed.
+
+(* private data indicator (ISO/IEC 13818-1 2.6.28) *)
+Theorem rt_private_data_indicator d v out rest :
+  Descriptor_Tag d = 15 -> Descriptor_PrivateDataIndicator d = Some v ->
+  0 <= DescriptorPrivateDataIndicator_Indicator v < 2 ^ 32 ->
+  enc_descriptors_with_length [d] = Ok out -> items_bytes_ok out ->
+  parse_descriptors (new_iter (bytes_of_items out ++ rest)) =
+    Ok ([set_PrivateDataIndicator (desc_hdr 15 4) v], mk_iter (bytes_of_items out ++ rest) 8).
+Proof.
+  intros Ht Hv Hr H Hok.
+  assert (Hs : desc_size d = 4) by (unfold desc_size; rewrite Ht, Hv; reflexivity).
+  destruct (single_descriptor_loop d out rest (set_PrivateDataIndicator (desc_hdr 15 4) v) H Hok) as [E _]; [rewrite Ht; lia|lia| |rewrite Hs in E; exact E].
+  intros pre body rest' Hpre (bi & Ebi & Hbok & ->). rewrite Ht, Hs.
+  assert (bi = enc_private_data_indicator v) by (unfold enc_descriptor_body in Ebi; rewrite Ht, Hv in Ebi; inversion Ebi; reflexivity). subst bi.
+  change (parse_descriptor_body 15 4 (4 + 4)) with (v0 <- new_descriptor_private_data_indicator ;; iret (set_PrivateDataIndicator (desc_hdr 15 4) v0)).
+  unfold enc_private_data_indicator. destruct (u32_group _ Hr) as [Hl Hb].
+  rewrite <- Hpre. unfold new_descriptor_private_data_indicator, ibind. rewrite next_bytes_nocopy_step by exact Hl.
+  unfold iret. rewrite Hb. destruct v. eexists. reflexivity.
+Qed.
+
+(* private data specifier (EN 300 468 6.2.31) *)
+Theorem rt_private_data_specifier d v out rest :
+  Descriptor_Tag d = 95 -> Descriptor_PrivateDataSpecifier d = Some v ->
+  0 <= DescriptorPrivateDataSpecifier_Specifier v < 2 ^ 32 ->
+  enc_descriptors_with_length [d] = Ok out -> items_bytes_ok out ->
+  parse_descriptors (new_iter (bytes_of_items out ++ rest)) =
+    Ok ([set_PrivateDataSpecifier (desc_hdr 95 4) v], mk_iter (bytes_of_items out ++ rest) 8).
+Proof.
+  intros Ht Hv Hr H Hok.
+  assert (Hs : desc_size d = 4) by (unfold desc_size; rewrite Ht, Hv; reflexivity).
+  destruct (single_descriptor_loop d out rest (set_PrivateDataSpecifier (desc_hdr 95 4) v) H Hok) as [E _]; [rewrite Ht; lia|lia| |rewrite Hs in E; exact E].
+  intros pre body rest' Hpre (bi & Ebi & Hbok & ->). rewrite Ht, Hs.
+  assert (bi = enc_private_data_specifier v) by (unfold enc_descriptor_body in Ebi; rewrite Ht, Hv in Ebi; inversion Ebi; reflexivity). subst bi.
+  change (parse_descriptor_body 95 4 (4 + 4)) with (v0 <- new_descriptor_private_data_specifier ;; iret (set_PrivateDataSpecifier (desc_hdr 95 4) v0)).
+  unfold enc_private_data_specifier. destruct (u32_group _ Hr) as [Hl Hb].
+  rewrite <- Hpre. unfold new_descriptor_private_data_specifier, ibind. rewrite next_bytes_nocopy_step by exact Hl.
+  unfold iret. rewrite Hb. destruct v. eexists. reflexivity.
+Qed.
+
+(* maximum bitrate (ISO/IEC 13818-1 2.6.26): 2 reserved bits, 22 bits in units of 50 bytes/second *)
+Theorem rt_maximum_bitrate d v k out rest :
+  Descriptor_Tag d = 14 -> Descriptor_MaximumBitrate d = Some v ->
+  DescriptorMaximumBitrate_Bitrate v = k * 50 -> 0 <= k < 2 ^ 22 ->
+  enc_descriptors_with_length [d] = Ok out -> items_bytes_ok out ->
+  parse_descriptors (new_iter (bytes_of_items out ++ rest)) =
+    Ok ([set_MaximumBitrate (desc_hdr 14 3) v], mk_iter (bytes_of_items out ++ rest) 7).
+Proof.
+  intros Ht Hv Hk Hr H Hok.
+  assert (Hs : desc_size d = 3) by (unfold desc_size; rewrite Ht, Hv; reflexivity).
+  destruct (single_descriptor_loop d out rest (set_MaximumBitrate (desc_hdr 14 3) v) H Hok) as [E _]; [rewrite Ht; lia|lia| |rewrite Hs in E; exact E].
+  intros pre body rest' Hpre (bi & Ebi & Hbok & ->). rewrite Ht, Hs.
+  assert (bi = enc_maximum_bitrate v) by (unfold enc_descriptor_body in Ebi; rewrite Ht, Hv in Ebi; inversion Ebi; reflexivity). subst bi.
+  change (parse_descriptor_body 14 3 (4 + 3)) with (v0 <- new_descriptor_maximum_bitrate ;; iret (set_MaximumBitrate (desc_hdr 14 3) v0)).
+  destruct (bytes_of_group (enc_maximum_bitrate v) 3) as [Hl Hb]; [exact Hbok|unfold enc_maximum_bitrate; bl; reflexivity|].
+  rewrite <- Hpre. unfold new_descriptor_maximum_bitrate, ibind. rewrite next_bytes_nocopy_step by exact Hl.
+  unfold iret, bitsf. rewrite Hb. unfold enc_maximum_bitrate, items_bits. cbn [flat_map item_bits]. rewrite app_nil_r.
+  rewrite (field_skip 2) by lia. change (2 - 2)%nat with 0%nat. rewrite Hk, Z.div_mul by lia.
+  rewrite <- (app_nil_r (bits_of 22 k)), field_here by exact Hr.
+  destruct v as [b]. cbn [DescriptorMaximumBitrate_Bitrate] in Hk. subst b. eexists. reflexivity.
 Qed.
